@@ -427,6 +427,11 @@ func genOps(prop string, r *Rng, n int, tier string, emit func(string)) {
 			}
 			emit("cdec " + hx(d))
 		}
+		for i := 0; i < 3; i++ { // status count just below 65536 with a final vector chunk running past it
+			t := genTwccWrapValue(r)
+			emit(opWith("rto", t))
+			emit("rt 1 " + packetTokens(t))
+		}
 		for i := 0; i < n/8; i++ { // the type's decoder on the type's own (RFC) encoding of any well-formed value
 			k := allKinds[r.Intn(len(allKinds))]
 			emit(opWith("rto", genValue(r, k, false)))
@@ -512,6 +517,10 @@ func genOps(prop string, r *Rng, n int, tier string, emit func(string)) {
 			case 4:
 				if r.Bool() {
 					emit("csize " + packetsTokens(genPacketList(r, false, 4)))
+					if r.Chance(1, 4) { // members whose own size is not a multiple of four (a caller-built RawPacket can be)
+						raw := rtcp.RawPacket(r.Bytes(r.Pick(5, 6, 7, 9)))
+						emit("csize " + packetsTokens(append(genPacketList(r, false, 3), &raw)))
+					}
 				} else {
 					emit(opWith("framed", p))
 				}
@@ -659,6 +668,30 @@ func genOps(prop string, r *Rng, n int, tier string, emit func(string)) {
 			emit("udec " + hx(append(append(append([]byte{}, pli...), raw...), pli...)))
 			emit("udec " + hx(append(append([]byte{}, pli...), raw...)))
 		}
+		{ // every registered (type, FMT) behind bodies of 0..20 octets of zeros and of ones: whatever comes back has that type
+			for _, pf := range registeredPairs {
+				for _, sz := range []int{0, 4, 8, 12, 16, 20} {
+					for _, fill := range []byte{0, 0xff} {
+						f := hdrBytes(false, pf[1], pf[0], sz/4)
+						for j := 0; j < sz; j++ {
+							f = append(f, fill)
+						}
+						emit("udec " + hx(f))
+					}
+				}
+			}
+			// a padded frame that is not the last one
+			pli := []byte{0x81, 206, 0, 2, 0, 0, 0, 1, 0, 0, 0, 2}
+			for _, f := range [][]byte{
+				{0xa0, 204, 0, 4, 0, 0, 0, 1, 'n', 'a', 'm', 'e', 1, 2, 3, 4, 0, 0, 0, 4},
+				{0xa0, 208, 0, 1, 0, 0, 0, 4},
+				{0xa1, 201, 0, 1, 0, 0, 0, 1},
+				{0xaf, 205, 0, 5, 0, 0, 0, 1, 0, 0, 0, 2, 0, 1, 0, 1, 0, 0, 0, 0, 0x20, 0x01, 0x04, 0x01},
+			} {
+				emit("udec " + hx(append(append([]byte{}, f...), pli...)))
+				emit("udec " + hx(append(append(append([]byte{}, pli...), f...), pli...)))
+			}
+		}
 		emit("rt 1 " + packetTokens(&rtcp.Goodbye{}))
 		emit("rt 1 " + packetTokens(&rtcp.SourceDescription{}))
 		emit("rt 2 " + packetTokens(&rtcp.Goodbye{}) + " " + packetTokens(&rtcp.SourceDescription{}))
@@ -740,6 +773,16 @@ func genOps(prop string, r *Rng, n int, tier string, emit func(string)) {
 			}
 		}
 	case "C11":
+		{ // a caller-built RawPacket whose type octet says SR/RR is still not an SR/RR
+			sd := &rtcp.SourceDescription{Chunks: []rtcp.SourceDescriptionChunk{{Source: 1, Items: []rtcp.SourceDescriptionItem{{Type: rtcp.SDESCNAME, Text: "c"}}}}}
+			for _, pt := range []byte{200, 201} {
+				raw := rtcp.RawPacket([]byte{0x80, pt, 0, 1, 0, 0, 0, 1})
+				for _, op := range []string{"cval", "cenc", "ccname"} {
+					emit(op + " " + packetsTokens([]rtcp.Packet{&raw, sd}))
+					emit(op + " " + packetsTokens([]rtcp.Packet{&raw, sd, &rtcp.Goodbye{Sources: []uint32{1}}}))
+				}
+			}
+		}
 		{ // a padded APP and an over-long BYE inside a valid compound
 			head := []byte{0x80, 201, 0, 1, 0, 0, 0, 9, 0x81, 202, 0, 3, 0, 0, 0, 9, 1, 2, 'a', 'b', 0, 0, 0, 0}
 			app := []byte{0xa0, 204, 0, 4, 0, 0, 0, 1, 'n', 'a', 'm', 'e', 1, 2, 3, 4, 0, 0, 0, 4}
@@ -895,6 +938,31 @@ func genOps(prop string, r *Rng, n int, tier string, emit func(string)) {
 			}
 		}
 	case "C13":
+		{ // a short packet announcing tens of thousands of deltas, with a neighbour's octets behind its declared length
+			for _, runs := range [][]int{{8191, 8191, 8191, 8191}, {8191, 8191, 8191, 8190}, {8191, 8191, 8191, 8191, 8191, 8191, 8191, 8191}} {
+				for _, sym := range []int{1, 2} {
+					count := 0
+					body := make([]byte, 16)
+					binary.BigEndian.PutUint32(body[0:], 1)
+					binary.BigEndian.PutUint32(body[4:], 2)
+					for _, n := range runs {
+						count += n
+						body = binary.BigEndian.AppendUint16(body, uint16(sym<<13|n))
+					}
+					binary.BigEndian.PutUint16(body[10:], uint16(count))
+					for (len(body)+4)%4 != 0 || len(body) < 28 {
+						body = append(body, 0, 4)
+					}
+					f := hdrBytes(false, 15, 205, (len(body)+4)/4-1)
+					f = append(f, body...)
+					emit("dec.TWCC " + hx(f))
+					emit("decp.TWCC " + hx(f))
+					nb := behindHeader(r, 199, 0, 131072-4)
+					binary.BigEndian.PutUint16(nb[2:], uint16(131072/4-1))
+					emit("udec " + hx(append(append([]byte{}, f...), nb...)))
+				}
+			}
+		}
 		for i := 0; i < n; i++ {
 			b := genTwccBytes(r)
 			if r.Chance(1, 8) {
@@ -1019,6 +1087,14 @@ func genOps(prop string, r *Rng, n int, tier string, emit func(string)) {
 			}
 		}
 	case "C16":
+		for first := 0x80; first < 0xc0; first++ { // every (padding, count) with the extreme length fields and a few types
+			for _, l := range []int{0, 1, 0xffff} {
+				emit(fmt.Sprintf("dec.HDR %02x%02x%04x", first, []int{0, 200, 205, 255}[first&3], l))
+			}
+		}
+		for _, w := range []int{0, 1, 0x3fff, 0x4000, 0x7fff, 0x8000, 0xc000, 0xffff} {
+			emit(fmt.Sprintf("xrchunk %d", w))
+		}
 		for c := 0; c < 256; c++ { // every count value through the header encoder
 			emit(fmt.Sprintf("enc.HDR %d %d %d %d", c&1, c, 200+c%8, c*257))
 		}
@@ -1179,6 +1255,9 @@ func genOps(prop string, r *Rng, n int, tier string, emit func(string)) {
 				}
 			}
 			emit(fmt.Sprintf("hist %s %d %s", packetTokens(p), len(ops), strings.Join(ops, " ")))
+			if r.Chance(1, 10) { // an extended report whose block headers still hold what an earlier call put there
+				emit(encOp(dirtyXRHeaders(r, genValue(r, "XR", false))))
+			}
 			if r.Chance(1, 5) {
 				emit("relay " + hx(genRelayDatagram(r)))
 			}
